@@ -156,6 +156,7 @@ CHECKS["C20"] = {
     "jobs": [
         {"pkg": CLIENT, "run": "^TestVerif_C20_Config$", "checks": {"quick": 6000, "thorough": 600000}, "shards": {"thorough": 16}},
         {"pkg": CLIENT, "run": "^TestVerif_C20_NoCrash$", "checks": {"quick": 3000, "thorough": 300000}, "shards": {"thorough": 8}},
+        {"pkg": CLIENT, "run": "^TestVerif_C20_StreamTimeout$", "checks": {"quick": 300, "thorough": 20000}, "shards": {"thorough": 8}},
     ],
 }
 
@@ -294,5 +295,6 @@ CHECKS["C16"] = {
     "assumptions": ["the tap sees every byte written to the client<->server connections"],
     "jobs": [
         {"pkg": SERVER, "run": "^TestVerif_C16_Usage$", "checks": {"quick": 400, "thorough": 40000}, "shards": {"thorough": 16}, "timeout": {"quick": 900}},
+        {"pkg": SERVER, "run": "^TestVerif_C16_Concurrent$", "checks": {"quick": 60, "thorough": 5000}, "shards": {"thorough": 4}},
     ],
 }
